@@ -12,7 +12,9 @@ use roto::{Context, Ctx, FileSpec, FileTree, NoCtx, Package, RotoReport, Runtime
 use vcore::util::{catch, decode, fnv_str, mix};
 use vcore::{Cfg, Check, Cx, Finding, Meta, SUB_SETUP, Tier, Value, Violation, json};
 
+mod cycctx;
 mod model;
+use cycctx::{CCase, CUnit};
 use model::{CYCLE_FORMS, Case, Expect, FORMS, Family, dags};
 
 #[derive(Clone, Context)]
@@ -171,15 +173,28 @@ fn slices(tier: Tier) -> Vec<Slice> {
     v
 }
 
-fn unit_table(tier: Tier) -> Vec<Unit> {
+/// a work unit of either enumeration
+#[derive(Clone, Debug)]
+enum AnyUnit {
+    Graph(Unit),
+    CycCtx(CUnit),
+}
+
+fn unit_table(tier: Tier) -> Vec<AnyUnit> {
     let mut out = vec![];
+    let mut cyc_done = false;
     for s in slices(tier) {
+        if s.n > 3 && !cyc_done {
+            // after the complete n <= 3 part, before the large slices
+            out.extend(cycctx::units(tier == Tier::Thorough).into_iter().map(AnyUnit::CycCtx));
+            cyc_done = true;
+        }
         let total = model::DAG_COUNTS[s.n];
         let chunk = ((1500 / s.per_dag()).max(1)) as usize;
         let mut lo = 0;
         while lo < total {
             let hi = (lo + chunk).min(total);
-            out.push(Unit { slice: s.clone(), dag_lo: lo, dag_hi: hi });
+            out.push(AnyUnit::Graph(Unit { slice: s.clone(), dag_lo: lo, dag_hi: hi }));
             lo = hi;
         }
     }
@@ -234,6 +249,13 @@ trait Env {
 
 struct Plain(Runtime<NoCtx>);
 struct WithCtx(Runtime<Ctx<CtxT>>);
+
+impl WithCtx {
+    /// parse and type check only (the stage that has to reject)
+    fn typecheck_only(&self, pkg: &str, m: &str) -> Compiled<()> {
+        finish_compile(catch(|| tree(pkg, m).parse().and_then(|p| p.typecheck(&self.0).map(|_| ()))))
+    }
+}
 
 impl Env for Plain {
     type Pkg = Package<NoCtx>;
@@ -306,12 +328,6 @@ fn marks(log: &[host::Ev]) -> Vec<Value> {
             other => json!(format!("{other:?}")),
         })
         .collect()
-}
-
-/// first line of a report with node numbers blanked
-fn normalise(report: &str) -> String {
-    let l = report.lines().next().unwrap_or("");
-    l.chars().map(|c| if c.is_ascii_digit() { '#' } else { c }).collect()
 }
 
 /// Oracle of one case.
@@ -486,6 +502,159 @@ fn run<E: Env>(env: &E, u: &Unit, cx: &mut Cx) {
     }
 }
 
+// ------------------------------------------------------------------ cycctx
+
+fn ccase_json(c: &CCase) -> Value {
+    let k = c.k();
+    let decl: Vec<String> = (0..k).map(|p| c.role_label(c.perm[p])).collect();
+    let mut by_symbol: Vec<(usize, String)> =
+        (0..k).map(|r| (c.sigma[r], format!("{}={}", c.role_label(r), c.role_name(r)))).collect();
+    by_symbol.sort();
+    json!({
+        "family": "cycctx",
+        "cycle_len": c.l(),
+        "hops_to_context_read": c.hops(),
+        "reader_attached_to_cycle": c.attached(),
+        "constant": format!("{:?}", c.mode),
+        "declaration_order": decl,
+        "symbol_order": by_symbol.into_iter().map(|x| x.1).collect::<Vec<_>>(),
+        "name_set": c.set,
+        "expect": if c.expect_reject() { "RejectCtx" } else { "Accept" },
+        "pkg.roto": c.source(),
+        "m.roto": "",
+    })
+}
+
+/// Oracle of a cycctx case: rejected (type error, nothing evaluated) iff the
+/// constant transitively reaches the context read; otherwise compiled in full,
+/// the constant evaluated exactly once during compile and every function
+/// returns the model's value.
+fn run_ccase(env: &WithCtx, c: &CCase, sub: u64, cx: &mut Cx) {
+    let src = c.source();
+    cx.states(1);
+    let key = fnv_str(&format!("cycctx|{src}"));
+    cx.nontrivial(key);
+    if key % 257 == 0 && c.k() >= 4 {
+        cx.sample(ccase_json(c));
+    }
+    let reject = c.expect_reject();
+    cx.count(&format!("cases:cycctx:{}", if reject { "reject" } else { "accept" }), 1);
+    cx.set("cycctx_symbol_orders", mix(c.config as u64, c.sigma.iter().fold(0, |a, x| a * 8 + *x as u64)));
+    cx.set("cycctx_decl_orders", mix(c.config as u64, c.perm.iter().fold(0, |a, x| a * 8 + *x as u64)));
+    cx.set("cycctx_name_sets", c.set as u64);
+    host::clear_log();
+    cx.transitions(1);
+    cx.validated(1);
+    if reject {
+        let r = env.typecheck_only(&src, "");
+        let log = host::take_log();
+        match r {
+            Compiled::Panic(msg) => {
+                cx.violation("panic", sub, ccase_json(c), json!("RejectCtx without a panic"), json!(msg))
+            }
+            Compiled::Ok(()) => cx.violation(
+                "accepted",
+                sub,
+                ccase_json(c),
+                json!("RejectCtx: the constant transitively reads a context variable"),
+                json!({"type_checked": true}),
+            ),
+            Compiled::Report(rep, kinds) => {
+                cx.count(&format!("reject: {}", normalise(&rep)), 1);
+                if kinds.iter().any(|k| *k != "type") || kinds.is_empty() {
+                    cx.violation("reject_not_type_error", sub, ccase_json(c), json!("type error"), json!(rep));
+                }
+                if !log.is_empty() {
+                    cx.violation(
+                        "evaluated_before_reject",
+                        sub,
+                        ccase_json(c),
+                        json!("nothing runs"),
+                        json!({"log": marks(&log)}),
+                    );
+                }
+                cx.outcome(mix(0x15, 1));
+            }
+        }
+        return;
+    }
+    let compiled = env.compile(&src, "");
+    let log = host::take_log();
+    let mut p = match compiled {
+        Compiled::Panic(msg) => {
+            cx.violation("panic", sub, ccase_json(c), json!("Accept without a panic"), json!(msg));
+            return;
+        }
+        Compiled::Report(rep, _) => {
+            cx.violation("rejected", sub, ccase_json(c), json!("compiles"), json!(rep));
+            return;
+        }
+        Compiled::Ok(p) => p,
+    };
+    let want_log = vec![host::Ev::Mark(CCase::tag(c.k() - 1) as i32)];
+    if log != want_log {
+        cx.violation(
+            "eval_count",
+            sub,
+            ccase_json(c),
+            json!({"log": marks(&want_log)}),
+            json!({"log": marks(&log)}),
+        );
+    }
+    let mut bad = vec![];
+    let mut outcome = mix(0x15, 0);
+    for (name, d, want) in c.probes() {
+        let got = match d {
+            Some(d) => WithCtx::call1(&mut p, &name, d as i32),
+            None => WithCtx::call0(&mut p, &name),
+        };
+        cx.transitions(1);
+        match got {
+            Ok(g) => {
+                outcome = mix(outcome, g as u64);
+                if g as i64 != want {
+                    bad.push(json!({"probe": name, "d": d, "expected": want, "observed": g}));
+                }
+            }
+            Err(e) => bad.push(json!({"probe": name, "d": d, "expected": want, "observed": e})),
+        }
+    }
+    if !bad.is_empty() {
+        cx.violation("value", sub, ccase_json(c), json!("the model's values"), json!({"wrong": bad}));
+    }
+    let late = host::take_log();
+    if !late.is_empty() {
+        cx.violation(
+            "late_eval",
+            sub,
+            ccase_json(c),
+            json!("nothing is logged after compile"),
+            json!({"log_after_compile": marks(&late)}),
+        );
+    }
+    cx.outcome(outcome);
+}
+
+/// first line of a report with the quoted names and digits blanked
+fn normalise(report: &str) -> String {
+    let l = report.lines().next().unwrap_or("");
+    let mut out = String::new();
+    let mut quoted = false;
+    for ch in l.chars() {
+        if ch == '`' {
+            quoted = !quoted;
+            out.push(ch);
+        } else if quoted {
+            if !out.ends_with('_') {
+                out.push('_');
+            }
+        } else {
+            out.push(ch);
+        }
+    }
+    out
+}
+
 // ------------------------------------------------------------------ check
 
 struct C14;
@@ -502,6 +671,26 @@ impl Check for C14 {
         if !cx.case(SUB_SETUP) {
             return;
         }
+        let u = match u {
+            AnyUnit::Graph(u) => u,
+            AnyUnit::CycCtx(u) => {
+                let env = match host::runtime().with_context_type::<CtxT>() {
+                    Ok(rt) => WithCtx(rt),
+                    Err(e) => {
+                        cx.violation("setup", SUB_SETUP, json!("with_context_type"), json!("Ok"), json!(e));
+                        return;
+                    }
+                };
+                for sub in 0..u.subs() {
+                    let Some(c) = u.decode(sub) else { continue };
+                    if !cx.case(sub) {
+                        continue;
+                    }
+                    run_ccase(&env, &c, sub, cx);
+                }
+                return;
+            }
+        };
         match u.slice.family {
             Family::Ctx => {
                 let rt = match host::runtime().with_context_type::<CtxT>() {
@@ -519,8 +708,17 @@ impl Check for C14 {
     fn describe(&self, cfg: &Cfg, unit: usize, sub: u64) -> Value {
         let u = unit_table(cfg.tier)[unit].clone();
         if sub == SUB_SETUP {
-            return json!({"kind": "setup", "slice": format!("{:?}", u.slice)});
+            return json!({"kind": "setup", "unit": format!("{u:?}")});
         }
+        let u = match u {
+            AnyUnit::Graph(u) => u,
+            AnyUnit::CycCtx(u) => {
+                return match u.decode(sub) {
+                    Some(c) => ccase_json(&c),
+                    None => json!({"kind": "not a case", "unit": unit, "sub": sub.to_string()}),
+                };
+            }
+        };
         match u.decode(sub) {
             Some(c) => case_json(&c),
             None => json!({"kind": "not a case", "unit": unit, "sub": sub.to_string()}),
@@ -539,21 +737,80 @@ impl Check for C14 {
             })
             .collect();
         Meta {
-            rule: "every labelled DAG on n declaration positions x constant/function per node x module (pkg / pkg.m) per node x reference form (family dag); x every back edge (u,v) with v reaching u or u == v (family cycle); x every node x k in 0..=2 functions between the node and the context variable (family ctx). A dag-family program is non-trivial when some constant transitively depends on another constant (its evaluation order is constrained); every cycle/ctx program is non-trivial by construction".into(),
+            rule: "every labelled DAG on n declaration positions x constant/function per node x module (pkg / pkg.m) per node x reference form (family dag); x every back edge (u,v) with v reaching u or u == v (family cycle); x every node x k in 0..=2 functions between the node and the context variable (family ctx). A dag-family program is non-trivial when some constant transitively depends on another constant (its evaluation order is constrained); every cycle/ctx program is non-trivial by construction. Family cycctx: ring of L in {2,3} mutually recursive functions, one context read attached to ring member c0 directly or through 1-2 non-cycle functions (or detached from the ring), one constant entering the ring through each member in turn / calling each non-cycle function / mentioning nothing, x every declaration order of the k <= 5 items x every relative order of their interned names (k! assignments of spellings lying in pairwise different symbol shards) x name set (see bounds.cycctx for the per-tier pairing); every cycctx program is non-trivial".into(),
             assumptions: vec![
                 "constants and functions are i32-valued; each constant is e(10^i) + sum of its references, each function 10^i + sum of its references".into(),
                 "two modules (pkg and pkg.m); helper, getter and context-reading functions are declared after the enumerated nodes of their module".into(),
                 "the cycle family leaves out the two string-valued forms (fstring, method): function values depend on the depth parameter there".into(),
                 "no order is demanded among constants that do not depend on each other".into(),
+                "cycctx programs predicted to be rejected are parsed and type checked only (the rejecting stage); accepted ones are compiled and run in full".into(),
             ],
             bounds: json!({"slices": sl, "forms": FORMS, "context_distance_k": [0, 1, 2],
-                           "recursion_depths_called": [0, 1, 2]}),
+                           "recursion_depths_called": [0, 1, 2],
+                           "cycctx": {
+                               "configurations (cycle length, hops, attached)": match cfg.tier {
+                                   Tier::Quick => cycctx::QUICK_CONFIGS.iter().map(|c| json!(cycctx::CONFIGS[*c])).collect::<Vec<_>>(),
+                                   Tier::Thorough => cycctx::CONFIGS.iter().map(|c| json!(c)).collect::<Vec<_>>(),
+                               },
+                               "declaration_orders": "all k!", "symbol_orders": "all k!",
+                               "order_pairs": cfg.tier.pick("k <= 4: all k! x k!; k = 5: the 1800 pairs with (i + j) % 8 == 0", "all k! x k!"),
+                               "name_sets": cycctx::name_sets().iter().map(|s| json!(s.as_ref().ok())).collect::<Vec<_>>(),
+                               "name_sets_per_case": cfg.tier.pick("1 of 8 in rotation", "k <= 4: all 8; k = 5: 1 of 8 in rotation"),
+                               "rejected_cases_stop_after_type_checking": true}}),
             states_are: "distinct generated programs (graph, kinds, placement, form, back edge / context read)".into(),
             transitions_are: "compilations plus calls of compiled functions".into(),
         }
     }
     fn preflight(&self, cfg: &Cfg) -> Result<(), String> {
-        model::self_test(cfg.tier.pick(4, 5))
+        model::self_test(cfg.tier.pick(4, 5))?;
+        cycctx::self_test()?;
+        // every name set must be usable for every role: one accepted program per
+        // (configuration, name set) has to compile
+        let env = WithCtx(host::runtime().with_context_type::<CtxT>()?);
+        for config in 0..cycctx::CONFIGS.len() {
+            for set in 0..cycctx::N_SETS {
+                let (l, h, _) = cycctx::CONFIGS[config];
+                let k = l + h + 1;
+                let c = CCase {
+                    config,
+                    mode: cycctx::Mode::Pure,
+                    perm: (0..k).rev().collect(),
+                    sigma: (0..k).rev().collect(),
+                    set,
+                };
+                match env.compile(&c.source(), "") {
+                    Compiled::Ok(_) => {}
+                    Compiled::Report(r, _) => return Err(format!("cycctx generator: {}\n{r}", c.source())),
+                    Compiled::Panic(p) => return Err(format!("cycctx generator: {}\n{p}", c.source())),
+                }
+            }
+        }
+        host::clear_log();
+        Ok(())
+    }
+    fn finish(&self, cfg: &Cfg, agg: &mut vcore::Aggregate) {
+        // every relative symbol order of every enumerated configuration must have occurred
+        let configs: Vec<usize> = match cfg.tier {
+            Tier::Quick => cycctx::QUICK_CONFIGS.to_vec(),
+            Tier::Thorough => (0..cycctx::CONFIGS.len()).collect(),
+        };
+        let want: u64 = configs
+            .iter()
+            .map(|c| cycctx::factorial(cycctx::CONFIGS[*c].0 + cycctx::CONFIGS[*c].1 + 1))
+            .sum();
+        for what in ["cycctx_symbol_orders", "cycctx_decl_orders"] {
+            let got = agg.set_len(what);
+            if got != want && agg.machinery_errors.is_empty() && agg.crashes == 0 {
+                agg.machinery_errors.push(format!("{what}: {got} (configuration, order) pairs seen, expected {want}"));
+            }
+        }
+        if agg.set_len("cycctx_name_sets") != cycctx::N_SETS as u64 && agg.machinery_errors.is_empty() && agg.crashes == 0 {
+            agg.machinery_errors.push("cycctx: not every name set was used".into());
+        }
+        for k in ["cycctx_symbol_orders", "cycctx_decl_orders", "cycctx_name_sets"] {
+            let n = agg.set_len(k);
+            agg.counters.insert(format!("{k}_seen"), n);
+        }
     }
 }
 
@@ -562,11 +819,9 @@ fn main() {
     let a: Vec<String> = std::env::args().collect();
     if a.len() == 5 && a[1] == "--show" {
         let tier = if a[2] == "thorough" { Tier::Thorough } else { Tier::Quick };
-        let u = unit_table(tier)[a[3].parse::<usize>().unwrap()].clone();
-        match u.decode(a[4].parse().unwrap()) {
-            Some(c) => println!("{}", vcore::serde_json::to_string_pretty(&case_json(&c)).unwrap()),
-            None => println!("not a case"),
-        }
+        let cfg = Cfg { tier, seed: 0 };
+        let v = C14.describe(&cfg, a[3].parse::<usize>().unwrap(), a[4].parse().unwrap());
+        println!("{}", vcore::serde_json::to_string_pretty(&v).unwrap());
         return;
     }
     // hand triage: c14 --probe pkg.roto m.roto [function names...] compiles the two
